@@ -23,7 +23,7 @@ ASSUMPTIONS = [
 ]
 
 STATES = ["unpinned", "pinned-same", "pinned-different", "unparsable", "unparsable-pinned", "changed-after-success",
-          "pinned-twin", "pinned-different-expired"]
+          "pinned-twin", "pinned-different-expired", "pinned-other-port"]
 HOSTS = ["target", "target", "0:0:0:0:0:0:0:1", "target."]
 OPS = ["get", "get-query", "upload", "delete"]
 
@@ -40,6 +40,8 @@ def case_st():
         "host": st.sampled_from(HOSTS),
         # the client object is used inside `async with`, after an earlier `async with` block has ended, or plainly
         "ctx": st.sampled_from(["plain", "plain", "inside", "after"]),
+        # the TLS context: the client's own, or one supplied by the caller (same settings, built with the library's helper)
+        "sslctx": st.sampled_from(["own", "own", "supplied"]),
     })
 
 
@@ -56,6 +58,8 @@ def enum_all(tier):
                             if peer == "eager" and tls == "1.3" and size == 100:
                                 yield {"state": s, "op": op, "size": size, "peer": peer, "redirect": redirect, "tls": tls, "dbfault": None,
                                        "ctx": "after"}
+                                yield {"state": s, "op": op, "size": size, "peer": peer, "redirect": redirect, "tls": tls, "dbfault": None,
+                                       "sslctx": "supplied"}
                                 for h in HOSTS[2:]:
                                     yield {"state": s, "op": op, "size": size, "peer": peer, "redirect": redirect, "tls": tls,
                                            "dbfault": None, "host": h}
@@ -81,7 +85,7 @@ def run_case(case: dict):
     if case["op"] != "get":
         case["redirect"] = False  # only plain fetches follow redirects
     state = case["state"]
-    presented = {"unpinned": "ec-a", "pinned-same": "ec-a", "pinned-different": "ec-b", "pinned-twin": "twin-b", "pinned-different-expired": "ec-expired",
+    presented = {"unpinned": "ec-a", "pinned-same": "ec-a", "pinned-different": "ec-b", "pinned-twin": "twin-b", "pinned-different-expired": "ec-expired", "pinned-other-port": "ec-b",
                  "unparsable": "hostile-bool", "unparsable-pinned": "hostile-v4", "changed-after-success": "ec-b"}[state]
     T = case.get("host") or "target"  # the spelling of the target host in URLs, pins and redirects
     TA = f"[{T}]" if ":" in T else T
@@ -101,13 +105,22 @@ def run_case(case: dict):
         good = memnet.ScriptedPeer(certs.get("rsa-a"), [("wait_request", 1.0), ("send", f"30 gemini://{TA}/landing?from=good\r\n".encode()), ("close",)])
         net.add("good", 1965, good)
         db = TOFUDatabase(dbpath)
-        if state in ("pinned-same", "pinned-different", "unparsable-pinned", "pinned-different-expired"):
+        if state == "pinned-other-port":
+            # the same host name serves another capsule on another port with another certificate - the one now presented here
+            db.trust(T, 1966, x509.load_der_x509_certificate(certs.get("ec-b").der))
+            db.trust(T, 300, x509.load_der_x509_certificate(certs.get("ec-b").der))
+        if state in ("pinned-same", "pinned-different", "unparsable-pinned", "pinned-different-expired", "pinned-other-port"):
             db.trust(T, 1965, x509.load_der_x509_certificate(certs.get("ec-a").der))
         if state == "pinned-twin":
             # the pinned certificate and the presented one share issuer name and serial number (both are chosen by
             # whoever makes a self-signed certificate) but not the key
             db.trust(T, 1965, x509.load_der_x509_certificate(certs.get("twin-a").der))
-        client = GeminiClient(timeout=20, tofu_db_path=dbpath)
+        ckw = {}
+        if case.get("sslctx") == "supplied":
+            from nauyaca.security.tls import create_client_context
+
+            ckw["ssl_context"] = create_client_context()
+        client = GeminiClient(timeout=20, tofu_db_path=dbpath, **ckw)
         if case.get("ctx") == "after":
             async with client:
                 pass
@@ -168,7 +181,7 @@ def run_case(case: dict):
         import shutil
 
         shutil.rmtree(d, ignore_errors=True)
-    should_fail = state in ("pinned-different", "unparsable", "unparsable-pinned", "changed-after-success", "pinned-twin", "pinned-different-expired")
+    should_fail = state in ("pinned-different", "unparsable", "unparsable-pinned", "changed-after-success", "pinned-twin", "pinned-different-expired", "pinned-other-port")
     if case.get("dbfault") and not should_fail:
         # the matching pin could not be (fully) consulted/updated: the call may fail or succeed; nothing to require here
         # beyond 'nothing before verification started', which was checked above
